@@ -10,7 +10,7 @@ namespace Fcp
 
 inductive Rule where
   | emptyStruct | dupField | dupEnumName | dupEnumValue | dupImpl | implNoStruct
-  | dupCanId | implTooBig | dupType | missingService | serviceRpc
+  | dupCanId | implTooBig | dupType | missingService | serviceRpc | intWidth
   deriving Repr, DecidableEq, Inhabited
 
 inductive CheckSet where
@@ -85,6 +85,23 @@ def chkServices (S : Schema) : Except Rule Unit :=
     | none => true
     | some l => l.all fun s => (serviceNames S).contains s) .missingService S.devices
 
+/-- the innermost element type of a field type (containers peeled off) -/
+def STy.leaf : STy → STy
+  | .arr t _ => t.leaf
+  | .dyn t => t.leaf
+  | .opt t => t.leaf
+  | t => t
+
+/-- the C++ plug-in's check of one field (category `field`): an integer has a carrier type -/
+def widthOk (t : STy) : Bool :=
+  match t.leaf with
+  | .u n => decide (1 ≤ n ∧ n ≤ 64)
+  | .i n => decide (1 ≤ n ∧ n ≤ 64)
+  | _ => true
+
+def chkWidths (S : Schema) : Except Rule Unit :=
+  firstFail (fun st : Struct => st.fields.all fun f => widthOk f.ty) .intWidth S.structs
+
 /-- the C++ plug-in's check of one service (category `service`): what its rpc layer needs -/
 def serviceRpcOk (S : Schema) (sv : Service) : Bool :=
   decide ((S.services.map (·.name)).count sv.name ≤ 1) &&
@@ -103,6 +120,9 @@ def chkServiceRpc (S : Schema) : Except Rule Unit :=
 def verifyModel (cs : CheckSet) (fuel : Nat) (S : Schema) : Except Rule Unit := do
   chkEmptyStruct S
   chkDupField S
+  match cs with
+  | .cpp => chkWidths S
+  | _ => pure ()
   chkDupEnumName S
   chkDupEnumValue S
   chkDupImpl S
@@ -135,6 +155,9 @@ structure DbcOk (S : Schema) : Prop where
 structure COk (S : Schema) (fuel : Nat) : Prop where
   bound : ∀ i ∈ S.impls, (S.getStruct i.type).isSome
   size : ∀ i ∈ S.impls, i.protocol = "can" → ∃ n, implBits S fuel i = some n ∧ n ≤ 64
+
+/-- every integer field of every struct has a carrier type (1 to 64 bits), inside containers too -/
+def WidthsOk (S : Schema) : Prop := ∀ st ∈ S.structs, ∀ f ∈ st.fields, widthOk f.ty = true
 
 /-- what the rpc layer of the C++ generator needs from the services of a schema -/
 structure CppOk (S : Schema) : Prop where
@@ -363,15 +386,21 @@ theorem chkServiceRpc_ok (S : Schema) : chkServiceRpc S = .ok () ↔ CppOk S := 
     · exact (forall_count_map_nodup sv.methods (·.name)).mpr (c.methodNames sv hsv) m hm
     · exact (forall_count_map_nodup sv.methods (·.id)).mpr (c.methodIds sv hsv) m hm
 
-/-- **with the C++ plug-in's check** (category `service`, added with fix 35b0f7d) -/
+theorem chkWidths_ok (S : Schema) : chkWidths S = .ok () ↔ WidthsOk S := by
+  unfold chkWidths WidthsOk
+  rw [firstFail_ok]
+  simp only [List.all_eq_true]
+
+/-- **with the C++ plug-in's checks** (categories `field` and `service`, added with the fixes
+6f85ba7 and 35b0f7d) -/
 theorem verify_iff_cpp (fuel : Nat) (S : Schema) :
-    verifyModel .cpp fuel S = .ok () ↔ WellFormed S ∧ CppOk S := by
+    verifyModel .cpp fuel S = .ok () ↔ WellFormed S ∧ WidthsOk S ∧ CppOk S := by
   unfold verifyModel
   simp only [seq_ok, chkEmptyStruct_ok, chkDupField_ok, chkDupEnumName_ok, chkDupEnumValue_ok,
-    chkDupImpl_ok, chkDupType_ok, chkServices_ok, chkServiceRpc_ok, wellFormed_iff, pure_ok, true_and]
+    chkDupImpl_ok, chkDupType_ok, chkServices_ok, chkServiceRpc_ok, chkWidths_ok, wellFormed_iff, pure_ok, true_and]
   constructor
-  · rintro ⟨a, b, c, d, e, t, k, sv⟩; exact ⟨⟨t, e, b, a, c, d, sv⟩, k⟩
-  · rintro ⟨⟨t, e, b, a, c, d, sv⟩, k⟩; exact ⟨a, b, c, d, e, t, k, sv⟩
+  · rintro ⟨a, b, w, c, d, e, t, k, sv⟩; exact ⟨⟨t, e, b, a, c, d, sv⟩, w, k⟩
+  · rintro ⟨⟨t, e, b, a, c, d, sv⟩, w, k⟩; exact ⟨a, b, w, c, d, e, t, k, sv⟩
 
 /-! ## the verdict does not depend on declaration order -/
 
@@ -439,7 +468,9 @@ theorem CppOk.perm {S S' : Schema} (p : SchemaPerm S S') (c : CppOk S) : CppOk S
 theorem verify_perm_cpp (fuel : Nat) (S S' : Schema) (p : SchemaPerm S S') :
     (verifyModel .cpp fuel S = .ok ()) ↔ (verifyModel .cpp fuel S' = .ok ()) := by
   rw [verify_iff_cpp, verify_iff_cpp]
-  exact ⟨fun ⟨w, c⟩ => ⟨w.perm p, c.perm p⟩, fun ⟨w, c⟩ => ⟨w.perm p.symm, c.perm p.symm⟩⟩
+  have wp : ∀ {A B : Schema}, SchemaPerm A B → WidthsOk A → WidthsOk B :=
+    fun q h st hst => h st (q.structs.mem_iff.mpr hst)
+  exact ⟨fun ⟨w, x, c⟩ => ⟨w.perm p, wp p x, c.perm p⟩, fun ⟨w, x, c⟩ => ⟨w.perm p.symm, wp p.symm x, c.perm p.symm⟩⟩
 
 /-- the general verdict is invariant under reordering the declarations -/
 theorem verify_perm_general (fuel : Nat) (S S' : Schema) (p : SchemaPerm S S') :
